@@ -60,7 +60,7 @@ def operand_choices(name):
         return [[v] for v in D8 + X8]
     if kd == 'lv1':
         vals = [('d', n) for n in (0, 1, -1, 127, 128, -129, 255, 256, 2 ** 31, -(2 ** 31))] + \
-               [('x', bytes(range(1, 1 + n)) if n < 200 else b'\xab' * n) for n in (1, 2, 127, 128, 255)] + [('x', b'\x00\x05'), ('x', b'\xff\xfe')] + \
+               [('x', bytes(range(1, 1 + n)) if n < 200 else b'\xab' * n) for n in (0, 1, 2, 127, 128, 255)] + [('x', b'\x00\x05'), ('x', b'\xff\xfe')] + \
                [('x', b'\x7f' + b'\xff' * 6), ('x', b'\x7f' + b'\xff' * 7), ('x', b'\x7f' + b'\xff' * 15), ('x', b'\x00\x7f' + b'\xff' * 6),
                 ('x', b'\x80' + b'\x00' * 7), ('x', b'\xff\x80' + b'\x00' * 7), ('x', b'\x7f' + b'\xff' * 5 + b'\xfe')] + \
                [('s', 'a'), ('s', 'hello world'), ('s', 'é'), ('f', 1.5), ('f', -2.0), ('fi', -7), ('fi', 3)]
